@@ -82,7 +82,34 @@ func c15Jobs(tier string) []Job {
 			}
 		}
 	}
-	return chunk(map[string]any{"fix": "std", "tag15": "true"}, hs, vars, 8)
+	jobs := chunk(map[string]any{"fix": "std", "tag15": "true"}, hs, vars, 8)
+	// a watched entry renamed and then deleted before the reader handles the first record (the clean-up of the
+	// IN_MOVE_SELF then meets a watch the kernel already dropped): move-of-self still is a Rename
+	var bh [][]string
+	var bv []map[string]any
+	for _, Q := range sets {
+		bh = append(bh, []string{"mv w/d/a w/d/c ;; rm w/d/c", "touch w/d/a"}, []string{"mv w/d/s w/o/s2 ;; rmr w/o/s2", "mkdir w/d/s"}, []string{"chmod w/d/b ;; mv w/d/a w/o/a2 ;; rm w/o/a2"})
+		for i := 0; i < 3; i++ {
+			bv = append(bv, map[string]any{"init": []string{"AW w/d/a " + Q, "AW w/d/s " + Q, "AW w/d/b 10"}})
+		}
+	}
+	jobs = append(jobs, chunk(map[string]any{"fix": "std", "tag15": "true"}, bh, bv, 8)...)
+	// E1: two callers requesting different sets for the same path at the same time, every interleaving up to the bound
+	single := []string{"1", "2", "4", "8", "10"}
+	bound := 2
+	for _, pth := range []string{"w/f", "w/d"} {
+		for i, a := range single {
+			for _, b := range single[i+1:] {
+				for _, in := range [][]string{{}, {"AW " + pth + " 1f"}, {"AW " + pth + " " + a}} {
+					if tier != "thorough" && pth == "w/d" && len(in) > 0 {
+						continue
+					}
+					jobs = append(jobs, Job{Family: "opsconc", Bound: bound, Params: map[string]any{"init": in, "t1": []string{"AW " + pth + " " + a}, "t2": []string{"AW " + pth + " " + b}}})
+				}
+			}
+		}
+	}
+	return jobs
 }
 
 func init() {
